@@ -292,7 +292,12 @@ class PyEval:
                     return self._modenv[key](*args, **kwargs)
                 except TypeError as x:
                     raise Raised('TypeError: %s' % x, '?')
-            if any(isinstance(b, ast.Name) and b.id in ('TypedDict',) for b in f.node.bases) or not f.mod.funcs.get(f.name + '.__init__'):
+            if any(isinstance(b, ast.Name) and b.id == 'TypedDict' for b in f.node.bases):
+                try:
+                    return dict(*args, **kwargs)         # calling a TypedDict class builds a plain dict
+                except (TypeError, ValueError) as x:
+                    raise Raised('%s: %s' % (type(x).__name__, x), '?')
+            if not f.mod.funcs.get(f.name + '.__init__'):
                 fields = [m.target.id for m in f.node.body if isinstance(m, ast.AnnAssign) and isinstance(m.target, ast.Name)]
                 o = PObj(f.mod, f.name)
                 for n_, v_ in zip(fields, args):
@@ -647,6 +652,8 @@ class PyEval:
             return self.attribute(ev(n.value), n.attr, mod, loc)
         if isinstance(n, ast.Subscript):
             o = ev(n.value)
+            if isinstance(o, PMod) and o.dotted.startswith('typing.'):
+                return o                 # Tuple[int, int], Optional[X] ... used as a value: a type, nothing to compute
             i = ev(n.slice)
             try:
                 return o[i]
